@@ -176,8 +176,10 @@ CLAIMED.update({
               'by the correspondence (task status compared after every op) and the monitor.'),
     'C04': pm('Theorems C04_kill_total, C04_kill_when_idle, C04_kill_committed (after kill() handed back an action, every further '
               'history leaves the process KILLED, EXCEPTED or with that kill still the pending interrupt action), '
-              'C04_end_of_step_kills, C04_pause_keeps_kill, C04_second_kill_same_action. The monitor additionally checks the '
-              'result of kill(), the kill text, future cancellation and that no step function starts after the request.'),
+              'C04_end_of_step_kills, C04_pause_keeps_kill, C04_second_kill_same_action, C04_no_stale_killing and '
+              'C04_always_killable (from EVERY reachable live configuration a further kill() kills at once or is the pending kill of '
+              'the step in flight). The monitor additionally checks the result of kill(), the kill text, future cancellation, that no '
+              'step function starts after the request, that a failed step excepts, and requests issued from listener notifications.'),
     'C05': pm('Theorems C05_nothing_runs_while_paused (no activation in any history starts with paused = true), C05_pause_total, '
               'C05_play_total, C05_play_unpauses, C05_play_cancels_pending_pause. Transparency (same steps, outputs, result as the '
               'uninterrupted run) and status restoration are decided by the correspondence and the monitors against the '
@@ -186,10 +188,13 @@ CLAIMED.update({
               'C06_parked_not_overwritten, C06_wake_rearms, C06_retracted_pause_keeps_wakeup, with C13_wait_resume_exact for the '
               'delivery. The history-level statement (first accepted value is what the continuation receives; never WAITING for '
               'ever) is decided by the correspondence and the monitor over all placements of wake-ups against pause/play/kill.'),
-    'C10': pm('Mechanism theorems for every configuration: C10_done_stores_and_waits (stored under its key, the wait does not '
-              'complete while anything is awaited), C10_last_done_completes, C10_failed_item_fails_wait, C10_failed_wait_excepts '
-              '(EXCEPTED, no further activation). The barrier over whole histories (all completion orders and placements, both '
-              'registration styles, failing and killed items) is decided by the correspondence and the monitor; not yet a theorem.'),
+    'C10': pm('Theorem C10_barrier over whole histories (every program, every completion order and placement, pause / play / kill / '
+              'fail / cancel / call_soon events in between; external resume() on the workchain excluded): the wait of the WAITING '
+              'state holds or has parked a result only when nothing is awaited any more, so the next step is activated only after '
+              'every awaited item was processed; plus the mechanism theorems C10_done_stores_and_waits, C10_last_done_completes, '
+              'C10_failed_item_fails_wait, C10_failed_wait_excepts. That every processed result is found in the context under its '
+              'key (later assignment wins), both registration styles and killed children are decided by the correspondence and the '
+              'monitor.'),
     'C13': pm('Theorems C13_activation_exact, C13_continue_exact, C13_wait_resume_exact, C13_stop_exact, C13_kill_command, '
               'C13_raise_excepts: for every configuration in which a step ends undisturbed, the next state / activation is exactly '
               'what the returned command says, with exact positional and keyword arguments. Restoring from a checkpoint between '
